@@ -386,7 +386,18 @@ fn random_qop(rng: &mut Rng) -> Value {
         25 => json!(["insert_typed_repo", v]),
         26 => json!(["remove_typed_repo"]),
         27 => json!(["get_typed_repo"]),
-        28 => json!(["try_get_typed_checksum"]),
+        28 => {
+            if rng.chance(1, 2) {
+                json!(["try_get_typed_checksum"])
+            } else {
+                let n = ps(rng, &["RepositoryUrl", "DownloadUrl", "VcsUrl", "FileName", "gem::Platform", "maven::Classifier", "maven::Type"]);
+                match rng.below(3) {
+                    0 => json!(["insert_typed", n, v]),
+                    1 => json!(["get_typed", n]),
+                    _ => json!(["remove_typed", n]),
+                }
+            }
+        },
         _ => {
             if rng.chance(1, 10) {
                 json!(["clear"])
